@@ -67,9 +67,42 @@ def stage_entry_points(ctx):
     return st
 
 
+def stage_entry_budget_e2e(ctx):
+    """connect(family, timeout, retries) end to end (real protocol classes, virtual-time loop, simulated inverter): a register block the inverter
+    never answers during read_device_info() must be transmitted exactly retries + 1 times -- the probes of optional features included"""
+    st = Stage('entry-point-budget-end-to-end')
+    from .. import siminv as SI, invmon as IM
+    targets = {'ET': [(47547, 47552, 'eco-mode v2 probe'), (47589, 47594, 'peak-shaving probe')],
+               'DT': [(30063, 30082, 'meter version info')], 'ES': []}
+    grid = [(1, 0), (1, 2), (2, 3)] if not ctx.deep else [(t, r) for t in (1, 2, 5) for r in (0, 1, 2, 3, 4)]
+    for fam, tg in targets.items():
+        for port in ((8899, 502) if fam != 'ES' else (8899,)):
+            for timeout, retries in grid:
+                for lo, hi, what in tg:
+                    goodwe = SI.reload_goodwe()
+                    with SI.e2e():
+                        sim = SI.Sim(seed=ctx.rng.randrange(1 << 30))
+                        if fam == 'ET': SI.et_identity(sim, serial=IM.ET_SERIALS['205 three-phase'], rated=10000, arm_fw=22)
+                        else: SI.dt_identity(sim, serial=IM.DT_SERIALS['three-phase'])
+                        sim.silent = [(lo, hi)]
+                        host = SI.e2e_host(sim)
+                        cfg = dict(entry_point='connect', family=fam, port=port, timeout=timeout, retries=retries, silent=what)
+                        st.case((fam, port, timeout, retries, what), sample=cfg if len(st.samples) < 3 else None)
+                        try:
+                            SI.run_e2e(goodwe.connect(host, port, fam, 0, timeout, retries))
+                        except Exception as ex:      # noqa: the property is about the budget, whatever connect() makes of the failure
+                            st.count('connect-raises:' + type(ex).__name__)
+                        lost = [e for e in sim.log if e.get('lost') and e.get('reg') is not None and lo <= e['reg'] <= hi]
+                        if lost and len(lost) != retries + 1:
+                            st.violation('entry-point-budget', f'connect(family={fam!r}, port={port}, timeout={timeout}, retries={retries}): the {what} (registers {lo}..) stayed '
+                                                               f'unanswered and was transmitted {len(lost)} time(s), expected retries + 1 = {retries + 1}', dict(config=cfg, transmissions=len(lost)))
+                        if not lost: st.count('probe-not-sent')
+    return st
+
+
 SPEC = spec(
     'C05',
-    ['C05_execute_finally_is_the_model',
+    ['C05_budget_is_assigned_by_the_constructor_only', 'C05_execute_finally_is_the_model',
      'C05_entry_points_pass_timeout_and_retries', 'C05_search_one_transmission_one_second', 'C05_all_sites', 'C05_request_leaves_budget_full',
      'C05_idle_means_fresh_budget', 'C05_budget_is_the_configured_one'],
     text='(a) tools/flow.py follows, on every run, the constructor chains connect/discover/search_inverters -> ET/ES/DT.__init__ -> '
@@ -86,6 +119,6 @@ SPEC = spec(
     design='DESIGN.md section 5 (C05)',
     rule='histories: every single outcome and seeded pairs (thorough: all pairs) of 12 outcome kinds before a silent request x '
          'UDP/TCP x keep-alive x retries; entry points x (timeout, retries) grid x families x ports',
-    extra_stages=[stage_entry_points],
+    extra_stages=[stage_entry_points, stage_entry_budget_e2e],
     extra_tb=['tools/flow.py (symbolic follower of the constructor chains, regenerates coq/Gen/FlowGen.v on every run)'],
 )
